@@ -137,3 +137,23 @@ CHECKS["C10"] = dict(
     technique="property-based testing (rapid): round-trip and diff/merge relations over generated typed values",
     design_ref="DESIGN.md section 4, C10",
 )
+
+CHECKS["C11"] = dict(
+    pkg="c11", level="exploration",
+    props=[dict(name="TestPropNoPanic", quick=120000, thorough=16 * 500000, shards_quick=8, shards_thorough=16, timeout_thorough=7200)],
+    fuzz=[dict(name="FuzzDecode", seconds=240)],
+    rule="prior value (zero value or a generated value of the struct with every supported kind, with children) x up to ~20 "
+         "node points and ~20 edge points whose types are biased to the declared ones (often two points of one type), keys "
+         "from a hostile list (\"\", negative, signed, zero-padded, exponent, 999/1000/1001, > 2^64, non-numeric, blanks, "
+         "non-ASCII digits) or random, values from hostile constants (NaN, +-Inf, +-1e300, kind limits +-1, negatives for "
+         "unsigned) or random bits, tombstone counts including negative and huge; fed to Decode (with child nodes), "
+         "MergePoints (also addressed to a child), MergeEdgePoints. Oracle: no panic; adding points of undeclared types at "
+         "drawn positions changes neither the result nor whether an error is returned. Non-trivial = the list has a live and "
+         "a tombstoned point of one declared type, or a hostile key on a declared type.",
+    assumptions=["a returned error is a legal outcome; only panics and the undeclared-type relation are judged"],
+    level_text="Generated hostile point lists (rapid) plus a coverage-guided native fuzz target over the same entry points in the "
+               "thorough tier; the oracle is totality plus a metamorphic relation.",
+    level_note="Trusted: recover() observing every panic of the decoding call (the decoders start no goroutines).",
+    technique="property-based testing (rapid) + native go fuzzing; totality and metamorphic oracle",
+    design_ref="DESIGN.md section 4, C11",
+)
